@@ -670,12 +670,19 @@ func c03Soak(tp *Tape, out *RunOut) *RunOut {
 		}})
 		return e
 	}
-	run := func(src string) string {
+	run := func(src string) (res string) {
+		// a panic that leaves EVAL is an outcome too (and never the expected one)
+		defer func() {
+			if r := recover(); r != nil {
+				simhook.Install(nil)
+				res = "PANIC " + normPanic(fmt.Sprint(r))
+			}
+		}()
 		ctx, cancel := context.WithTimeout(context.Background(), time.Hour)
 		defer cancel()
 		spy := &stepSpy{budget: 1500000, cancel: cancel}
 		simhook.Install(spy)
-		res, err := lisp.EVAL(ctx, mustRead(src), mk())
+		v, err := lisp.EVAL(ctx, mustRead(src), mk())
 		simhook.Install(nil)
 		if spy.runaway {
 			return "DOES-NOT-TERMINATE"
@@ -683,7 +690,7 @@ func c03Soak(tp *Tape, out *RunOut) *RunOut {
 		if err != nil {
 			return "THROWN " + thrown03(err)
 		}
-		return canon03(res)
+		return canon03(v)
 	}
 	kind := []string{"(raw-panic!)", "(raw-fail!)", "(throw 7)", "(defmacro bad-m 5)"}[tp.Draw(LaneWork, 4)]
 	n := 10050 + tp.Draw(LaneWork, 200)
